@@ -3,7 +3,7 @@
   FieldsOnCorrectType + ScalarLeafs + FragmentsOnCompositeTypes
     = §5.3.1 Field Selections + §5.3.3 Leaf Field Selections + §5.5.1.3 Fragments On Composite Types,
   for well-formed registries (`SchemaWF`) and documents without sub-selections below `__typename`
-  and without a field directive called `ifdef` (`docOK`).
+  (`docOK`).
 -/
 import AGV.Lemmas.ValidateTyped
 namespace AGV.Lemmas.ValidateRules
@@ -80,8 +80,8 @@ theorem isComposite_eq (S : VSchema) (n : String) : S.isComposite n = composite 
 /-- what FieldsOnCorrectType, ScalarLeafs and the inline half of FragmentsOnCompositeTypes report at a visited selection -/
 def mv (S : VSchema) (v : Stack × Sel) : Prop :=
   match v.2 with
-  | .field _ n _ ds ss _ =>
-    (∃ p, Stack.cur v.1 = some p ∧ n ≠ "__typename" ∧ S.field? p n = none ∧ ds.any (·.name = "ifdef") = false)
+  | .field _ n _ _ ss _ =>
+    (∃ p, Stack.cur v.1 = some p ∧ n ≠ "__typename" ∧ S.field? p n = none)
     ∨ (∃ t, ((Stack.cur v.1).bind (fun p => S.field? p n)).bind (fun f => S.concrete f.ty) = some t
           ∧ ((S.isLeaf t = true ∧ ss ≠ []) ∨ (S.isLeaf t = false ∧ ss = [])))
   | .inline c _ _ _ => ∃ t, Stack.cur (inlineSt S v.1 c) = some t ∧ S.isComposite t = false
@@ -121,9 +121,9 @@ structure BlockSchema (S : VSchema) : Prop where
   /-- the type of an output field is not an input-object type -/
   fieldsOutput : ∀ t n f, S.field? t n = some f → kindIs S f.ty.base .input = false
 
-/-- document hypotheses: no sub-selection below `__typename`, no directive called `ifdef` on a field -/
+/-- document hypothesis: no sub-selection below `__typename` -/
 def selOK : Sel → Prop
-  | .field _ n _ ds ss _ => (n = "__typename" → ss = []) ∧ ds.any (·.name = "ifdef") = false
+  | .field _ n _ _ ss _ => n = "__typename" → ss = []
   | _ => True
 
 /-- the parent type, when there is one, is composite -/
@@ -160,7 +160,7 @@ theorem node_agree (S : VSchema) (hB : BlockSchema S) (st : Stack) (parent : Opt
       simp only [mv, inlineSt, Stack.cur, sv1, sv2, sv3, Bool.false_or, Bool.and_eq_true, exists_eq_tyDef, isComposite_eq]
       by_cases hx : (tyDef S t).isSome = true <;> simp [hx]
   | field al n args ds ss q =>
-    obtain ⟨hty, hif⟩ := hsel
+    have hty := hsel
     cases hc : Stack.cur st with
     | none => simp [mv, sv1, sv2, sv3, hc]
     | some p =>
@@ -173,7 +173,7 @@ theorem node_agree (S : VSchema) (hB : BlockSchema S) (st : Stack) (parent : Opt
         simp [hB.typed.noTypenameField, fieldType, hp, TypeRef.base, hB.stringNotComposite]
       · rw [← field?_eq_fieldType S p n hn]
         cases hf : S.field? p n with
-        | none => simp [hn, hif]
+        | none => simp [hn]
         | some f =>
           simp only [Option.bind_some, Option.map_some, Option.isNone_some, Bool.false_or, VSchema.concrete, exists_eq_tyDef,
             reduceCtorEq]
@@ -215,7 +215,7 @@ theorem child_inv_field (S : VSchema) (hB : BlockSchema S) (st : Stack) (parent 
     (hcur : Stack.cur st = parent) (al n args ds ss q) (hsel : selOK (.field al n args ds ss q)) (hne : ss ≠ [])
     (hv : ¬ mv S (st, .field al n args ds ss q)) :
     Stack.cur (fieldTy S st n :: st) = childTy S parent n ∧ OKp S (childTy S parent n) := by
-  have hty : n ≠ "__typename" := fun hn => hne (hsel.1 hn)
+  have hty : n ≠ "__typename" := fun hn => hne (hsel hn)
   have hchild : fieldTy S st n = childTy S parent n := fieldTy_eq_childTy S st parent n hty hcur
   refine ⟨hchild, ?_⟩
   -- the child type, when there is one, is composite: otherwise ScalarLeafs would have fired
@@ -525,10 +525,10 @@ structure SchemaWF (S : VSchema) : Prop where
   /-- the root types the schema names are composite types of the schema -/
   rootsComposite : ∀ (t : OpType) (r : String), rootOf S t = some r → S.isComposite r = true
 
-/-- no sub-selection below `__typename`, no directive called `ifdef` on a field -/
+/-- no sub-selection below `__typename` -/
 def docOK (d : Doc) : Bool :=
   (allSels d).all (fun s => match s with
-    | .field _ n _ ds ss _ => (n != "__typename" || ss.isEmpty) && !(ds.any (·.name = "ifdef"))
+    | .field _ n _ _ ss _ => n != "__typename" || ss.isEmpty
     | _ => true)
 
 theorem field?_mem (S : VSchema) (t n : String) (f : FieldDef) (h : S.field? t n = some f) :
@@ -588,9 +588,9 @@ theorem docOK_selOK (d : Doc) (h : docOK d = true) : ∀ s ∈ allSels d, selOK 
   have := List.all_eq_true.mp h s hs
   cases s with
   | field al n args ds ss q =>
-    simp only [Bool.and_eq_true, Bool.or_eq_true, bne_iff_ne, ne_eq, List.isEmpty_iff, Bool.not_eq_true'] at this
-    refine ⟨fun hn => ?_, this.2⟩
-    rcases this.1 with h1 | h1
+    simp only [Bool.or_eq_true, bne_iff_ne, ne_eq, List.isEmpty_iff] at this
+    intro hn
+    rcases this with h1 | h1
     · exact absurd hn h1
     · exact h1
   | spread n ds q => trivial
